@@ -595,6 +595,11 @@ func (p *Path) makeSlice(ins *ssa.MakeSlice) Value {
 	cp := p.toInt64(p.term(p.eval(ins.Cap)), ins.Cap.Type())
 	p.check(ts.BAnd(ts.Sle(ts.Const(0, 64), ln), ts.Sle(ln, cp)), "makeslice", "makeslice: len out of range")
 	c := int(p.concretize(cp, nil))
+	if !ln.IsConst() {
+		// a slice of symbolic length over a concrete backing array makes every
+		// loop over it fork per element; sizes are case-split instead
+		ln = p.ts().Const(p.concretize(ln, nil), 64)
+	}
 	if c > 1<<31 {
 		p.unsup("makeslice of %d elements", c)
 	}
